@@ -5,6 +5,7 @@ pub mod c04;
 pub mod c05;
 pub mod c06;
 pub mod c07;
+pub mod c09;
 pub mod c10;
 pub mod c11;
 pub mod c12;
@@ -14,6 +15,7 @@ pub mod c15;
 pub mod c16;
 pub mod c17;
 pub mod c18;
+pub mod c19;
 pub mod c20;
 
 use crate::rt::Prop;
@@ -27,6 +29,7 @@ pub fn lookup(id: &str) -> Option<&'static dyn Prop> {
         "C05" => Some(&c05::C05),
         "C06" => Some(&c06::C06),
         "C07" => Some(&c07::C07),
+        "C09" => Some(&c09::C09),
         "C10" => Some(&c10::C10),
         "C11" => Some(&c11::C11),
         "C12" => Some(&c12::C12),
@@ -36,6 +39,7 @@ pub fn lookup(id: &str) -> Option<&'static dyn Prop> {
         "C16" => Some(&c16::C16),
         "C17" => Some(&c17::C17),
         "C18" => Some(&c18::C18),
+        "C19" => Some(&c19::C19),
         "C20" => Some(&c20::C20),
         _ => None,
     }
